@@ -171,7 +171,8 @@ where
     T: DuParam + Into<f64>,
 {
     fn entropy(&self) -> f64 {
-        let diff: f64 = (self.b - self.a).into();
+        // widen before subtracting: b - a can exceed the range of T
+        let diff: f64 = self.b.into() - self.a.into();
         diff.ln()
     }
 }
@@ -181,7 +182,7 @@ where
     T: DuParam + SampleUniform + Into<f64>,
 {
     fn mean(&self) -> Option<f64> {
-        let m = ((self.b + self.a).into()) / 2.0;
+        let m = (self.b.into() + self.a.into()) / 2.0;
         Some(m)
     }
 }
@@ -191,7 +192,7 @@ where
     T: DuParam + SampleUniform + Into<f64>,
 {
     fn median(&self) -> Option<f64> {
-        let m: f64 = (self.b + self.a).into() / 2.0;
+        let m: f64 = (self.b.into() + self.a.into()) / 2.0;
         Some(m)
     }
 }
@@ -201,9 +202,8 @@ where
     T: DuParam + SampleUniform + Into<f64>,
 {
     fn variance(&self) -> Option<f64> {
-        let v = (self.b - self.a + T::one()).into()
-            * (self.b - self.a + T::one()).into()
-            / 12.0;
+        let width: f64 = self.b.into() - self.a.into() + 1.0;
+        let v = width * width / 12.0;
         Some(v)
     }
 }
@@ -234,8 +234,11 @@ where
     T: DuParam + SampleUniform + ToPrimitive,
 {
     fn invcdf(&self, p: f64) -> X {
-        let diff: f64 = (self.b - self.a).to_f64().unwrap();
-        X::from_f64(p * diff).unwrap() + X::from(self.a)
+        // widen before subtracting (b - a can exceed the range of T) and add
+        // the lower bound before narrowing (p * (b - a) can exceed the range of X)
+        let a: f64 = self.a.to_f64().unwrap();
+        let diff: f64 = self.b.to_f64().unwrap() - a;
+        X::from_f64((p * diff).trunc() + a).unwrap()
     }
 }
 
